@@ -547,6 +547,9 @@ def bisim_observed(shard, li, hist):
 
 def check_c06(tier, replay_file=None):
     prop = "C06"
+    if replay_file and json.load(open(replay_file)).get("engine") == "E2-loop-trace":
+        import e2
+        return e2.check(prop, tier, replay_file)
     res = Result(prop, tier, "model_checking")
     try:
         exe = build_harness()
@@ -621,6 +624,10 @@ def check_c06(tier, replay_file=None):
         res.assumptions = ["bounded: at most maxheld keys held, alphabets of 6-8 keys", "the snapshot hook returns the mapper's real fields"]
         if not res.violations and not res.tool_errors and (counters[0] == 0 or counters[1] == 0 or counters[2] == 0):
             res.tool_errors.append("vacuous run: counters %s" % counters)
+        if not res.tool_errors:
+            # the same statement at the loop, where the release-all operation is used: nothing held after the switch, answers as a fresh mapper, no repeat survives
+            import e2
+            res.coverage.update(e2.loop_level(res, exe, wd, tier, prop))
     except ToolError as e:
         res.tool_errors.append(str(e))
     return res.finish()
